@@ -35,6 +35,9 @@ def spec(lr, alpha, beta, x, random_order):
     return [bool(ts >= B), bool((ts <= A) and not (ts >= B))], ts
 
 
+INF_R = Fr(10**30)      # stands for a likelihood ratio of +inf in the tables sent to the model (larger than every threshold used)
+
+
 def run(ctx):
     from permute import sprt as S
     ops, meta = [], []
@@ -124,6 +127,8 @@ def run(ctx):
         inside = [Fr(1), (A + B) / 2, A + (B - A) / 8, B - (B - A) / 8]
         edge = [A, B, A / 2, B * 2, A - Fr(1, 64), B + Fr(1, 64)]
         inside = [Fr(float(v)) for v in inside]; edge = [Fr(float(v)) for v in edge]
+        if ctx.rng.random() < 0.25:
+            edge = edge + [INF_R, INF_R]       # a ratio of +inf (H0 gives an observed outcome probability 0): at least B, so H0 is rejected
         mode = ctx.rng.choice(["last", "never", "early", "random"])
         tab = [Fr(1)] * (n + 1)
         for k in range(1, n + 1):
@@ -139,17 +144,20 @@ def run(ctx):
         x = [ctx.rng.randint(0, 1) for _ in range(n)]
         ro = ctx.rng.random() < 0.85
         calls = []
-        def lrf(xx, tab=tab, calls=calls):
-            calls.append(len(xx)); return float(tab[len(xx)])
+        tabf = [float("inf") if v == INF_R else float(v) for v in tab]
+        def lrf(xx, tabf=tabf, calls=calls):
+            calls.append(len(xx)); return tabf[len(xx)]
         r = guarded(S.sprt, lrf, float(al), float(be), x, ro)
-        want = spec(lambda xx: float(tab[len(xx)]), float(al), float(be), x, ro)
+        want = spec(lambda xx: tabf[len(xx)], float(al), float(be), x, ro)
+        if INF_R in tab:
+            ctx.count("table-with-infinite-ratio")
         key = ("len", al, be, tuple(tab), n, ro)
         ctx.case(key, True, {"alpha": rat(al), "beta": rat(be), "table_by_prefix_length": [rat(v) for v in tab], "x": x, "random_order": ro})
         ctx.count("table-" + mode)
         if r[0] != "ok" or r[1][0] != want[0] or r[1][1] != want[1]:
             ctx.violation("oracle", {"lr": "by-prefix-length", "table": [rat(v) for v in tab], "alpha": al, "beta": be, "x": x, "random_order": ro,
                                      "returned": r[1:] if r[0] != "ok" else [r[1][0], float(r[1][1])], "expected": [want[0], float(want[1])],
-                                     "prefix_lengths_examined": calls}, site="sprt")
+                                     "prefix_lengths_examined": calls, "note": "a table entry of 10^30 stands for +inf"}, site="sprt")
             continue
         near = any(abs(v - t) < Fr(1, 10**9) * max(1, abs(t)) and v != t for v in tab for t in (A, B))
         if near:
@@ -176,7 +184,9 @@ def run(ctx):
                    for v in [Fr(pa / po) ** sum(x[:k]) * Fr((1 - pa) / (1 - po)) ** (k - sum(x[:k])) for k in range(0, len(x) + 1)]):
                 ctx.bracketed += 1; continue
             ctx.case(key, True)
-        if mdec != list(got[0]) or not close(got[1], mts):
+        if mts == INF_R and got[1] == float("inf"):
+            mts = None
+        if mdec != list(got[0]) or (mts is not None and not close(got[1], mts)):
             agree = False
             ctx.violation("correspondence", {"op": "sprt", "key": key, "model": o, "impl": [got[0], float(got[1])]}, site="sprt", no_input=True)
     ctx.block("sprt-model-vs-impl", agree, len(ops))
